@@ -210,6 +210,9 @@ pub fn run(args: &Args) -> i32 {
     for _ in 0..args.tier.pick(3, 12) {
         scenario_refused_heavier_fork(&mut rng, &mut r);
     }
+    for _ in 0..args.tier.pick(4, 16) {
+        scenario_commit_fault(&mut rng, &mut r);
+    }
     let hits = hooks::hits();
     for (k, v) in &hits {
         r.c01.count_n(&format!("hook.{k}"), *v);
@@ -1409,6 +1412,103 @@ fn scenario_refused_heavier_fork(rng: &mut Rng, r: &mut Reports) {
     deliver_and_check(&tg, &gi, &OrderKind::InOrder, 1, 1, false, rng, shape, r);
     FIXED_ORDER.with(|f| *f.borrow_mut() = None);
     r.c20.count("scenario.refused_heavier_fork_runs");
+}
+
+/// Directed scenario (C20, C01, C02; fault injection through hook H2b): the database write of a
+/// block import fails with an I/O error - either the commit that stores the received block or the
+/// commit of the reorganisation it triggers. The node has to stay on its old chain with an
+/// unchanged state and proposal view, go on extending it, and accept the same block when it is
+/// delivered again later (the reorganisation then succeeds).
+fn scenario_commit_fault(rng: &mut Rng, r: &mut Reports) {
+    let mut params = ChainParams::default();
+    params.epoch = EpochMode::Permanent { genesis_len: 100, epoch_len: 100 };
+    let gi = consensus::build(&params);
+    let cfg = TreeCfg { n_blocks: 0, invalid: 0, max_new_txs: 2, junk_proposals: 2, uncle_pm: 0, fork_pm: 0, ..Default::default() };
+    let mut tg = TreeGen::new(&gi, cfg, rng.next_u64());
+    let mut tip = tg.rc.genesis;
+    let mut prefix: Vec<H> = vec![];
+    for _ in 0..(6 + rng.usize_below(4)) {
+        tip = tg.extend(&tip);
+        prefix.push(tip);
+    }
+    let fork_point = tip;
+    let depth = 2 + rng.usize_below(2);
+    let mut side: Vec<H> = vec![];
+    let mut cur = fork_point;
+    for _ in 0..depth {
+        cur = tg.extend(&cur);
+        side.push(cur);
+    }
+    let over = tg.extend(&cur);
+    let over2 = tg.extend(&over);
+    let mut main_rest: Vec<H> = vec![];
+    let mut cur = fork_point;
+    for _ in 0..(depth + 1) {
+        cur = tg.extend(&cur);
+        main_rest.push(cur);
+    }
+    let rc = &tg.rc;
+    let node = Node::boot(&gi, &NodeCfg::default());
+    let deliver = |x: &H| node.chain().blocking_process_block(Arc::clone(&rc.get(x).block));
+    let wit = |extra: serde_json::Value| json!({"fork_point": format!("{}#{}", hx(&fork_point), rc.get(&fork_point).number), "side_branch_blocks": depth + 2, "extra": extra});
+    for x in prefix.iter().chain(main_rest[..depth].iter()).chain(side.iter()) {
+        if !matches!(deliver(x), Ok(true)) {
+            r.c01.inconclusive("harness: commit-fault scenario could not deliver its preparation blocks");
+            return;
+        }
+    }
+    let old_tip = main_rest[depth - 1];
+    let state = |ctx: &str, want_tip: &H, r: &mut Reports| {
+        let snap = node.shared.snapshot();
+        let t = h(&snap.tip_hash());
+        r.c01.eval();
+        if t != *want_tip {
+            r.c01.violation(&format!("commit_fault.tip_differs@{ctx}"), format!("tip {} expected {}", hx(&t), hx(want_tip)), wit(json!({})));
+            return;
+        }
+        check_view(rc, &t, snap.proposals().set(), snap.proposals().gap(), ctx, r);
+        let d = dump::dump(node.shared.store());
+        compare_and_report(&d, rc, ctx, r, true);
+    };
+    // the fault: 1 = the commit that stores the received block, 2 = the commit of its verification
+    let which = 1 + rng.below(2);
+    ckb_db::verif::fail_write_at(ckb_db::verif::commit_count() + which);
+    let res = deliver(&over);
+    ckb_db::verif::fail_write_at(0);
+    r.c20.count("scenario.commit_fault_runs");
+    match &res {
+        Err(e) => {
+            r.c20.count(&format!("scenario.commit_fault.block_answered_with_an_error.write_{which}"));
+            let _ = e;
+        }
+        Ok(_) => {
+            // the armed write was not reached by this block (nothing to judge about the fault)
+            r.c20.count("scenario.commit_fault.not_hit");
+        }
+    }
+    if res.is_err() {
+        state("after_a_failed_database_write", &old_tip, r);
+        // the old chain goes on
+        if !matches!(deliver(&main_rest[depth]), Ok(true)) {
+            r.c01.violation("commit_fault.next_block_refused", "after a failed database write of a competing block the next block of the main chain was refused".into(), wit(json!({})));
+            return;
+        }
+        state("after_a_failed_database_write_and_the_next_block", &main_rest[depth], r);
+    } else if !matches!(deliver(&main_rest[depth]), Ok(_)) {
+        return;
+    }
+    // the block whose import failed arrives again, then its child: the side branch is heavier now
+    for x in [&over, &over2] {
+        let res = deliver(x);
+        if res.is_err() {
+            r.c01.violation("commit_fault.block_refused_when_delivered_again", format!("{:?}", res.map_err(|e| e.to_string())), wit(json!({"block": hx(x)})));
+            return;
+        }
+    }
+    state("after_a_failed_database_write_and_a_later_successful_reorganisation", &over2, r);
+    for p in hooks::take_panics() {
+        r.c01.violation(&format!("node_thread_panicked@{}:{}", p.thread, p.message.chars().take(60).collect::<String>()), format!("{} at {} (commit-fault scenario)", p.message, p.location), wit(json!({})));
+    }
 }
 
 fn deliver_fixed(tg: &TreeGen, gi: &GenesisInfo, order: Vec<H>, rng: &mut Rng, shape: u64, r: &mut Reports) {
